@@ -288,6 +288,20 @@ func (h *verifRHarness) refresh(c *verifRClient, id, wantSym string) {
 	}
 }
 
+// rereadAddr reads the current address of dataset id through the client without touching the
+// dataset handle the client holds.
+func (h *verifRHarness) rereadAddr(c *verifRClient, id, wantSym string) hash.Hash {
+	ds, err := c.db.GetDataset(h.ctx, id)
+	if err != nil {
+		h.fail("k%d GetDataset(%s): %v", c.idx, id, err)
+	}
+	a, _ := ds.MaybeHeadAddr()
+	if want, bound := h.sym2hash[wantSym]; (wantSym == "" && !a.IsEmpty()) || (bound && want != a) {
+		h.fail("k%d re-read %s = %s (%s), the model has %q", c.idx, id, a, h.hash2sym[a], wantSym)
+	}
+	return a
+}
+
 // exec performs op for real and compares what happened with the prediction.
 func (h *verifRHarness) exec(op *verifROp, exp *verifROutcome, top bool) {
 	ctx := h.ctx
@@ -343,14 +357,18 @@ func (h *verifRHarness) exec(op *verifROp, exp *verifROutcome, top bool) {
 		} else {
 			wsds := h.snapOf(c, op.WS)
 			var prev hash.Hash
-			if !op.PrevEmpty {
+			if op.PrevFresh && !op.PrevEmpty {
+				prev = h.rereadAddr(c, op.WS, exp.PrevRead)
+			} else if !op.PrevEmpty {
 				prev, _ = wsds.MaybeHeadAddr()
 			}
 			_, _, err = c.db.CommitWithWorkingSet(ctx, ds, wsds, h.values[op.Value], h.wsSpec(op), prev, opts)
 		}
 	case verifRUpdateWS:
 		var prev hash.Hash
-		if !op.PrevEmpty {
+		if op.PrevFresh && !op.PrevEmpty {
+			prev = h.rereadAddr(c, op.ID, exp.PrevRead)
+		} else if !op.PrevEmpty {
 			prev, _ = ds.MaybeHeadAddr()
 		}
 		_, err = c.db.UpdateWorkingSet(ctx, ds, h.wsSpec(op), prev)
